@@ -89,6 +89,23 @@ MUTANTS = [
     {"id": "C06-realized-seq-dropped-tail", "prop": "C06", "edits": [
         R(SEQRS, "            Some(Ok(v)) => Ok(new_py_cons(\n                py,\n                v,\n                Some(new_py_lazy_seq(py, slf.into_bound_py_any(py)?)?),",
           "            Some(Ok(v)) => Ok(new_py_cons(\n                py,\n                v,\n                Some(new_py_lazy_seq(py, Sequence { it: slf.it.clone_ref(py) }.into_bound_py_any(py)?)?),")]},
+    # ---- C19
+    {"id": "C19-slice-without-bounds-check", "prop": "C19", "edits": [
+        R(BENCODE, "   (if (and end (> end (len bytes)))\n     (throw (python/ValueError \"out of input\"))",
+          "   (if false\n     (throw (python/ValueError \"out of input\"))")]},
+    {"id": "C19-nrepl-forgets-to-prepend-pending", "prop": "C19", "edits": [
+        R(NREPL, "(let [b (+ p data)]", "(let [b data]")]},
+    {"id": "C19-nrepl-never-clears-pending", "prop": "C19", "edits": [
+        R(NREPL, "                                           (reset! pending nil)\n", "")]},
+    {"id": "C19-nrepl-never-stores-pending", "prop": "C19", "edits": [
+        R(NREPL, "(when (not (str/blank? unprocessed))", "(when false")]},
+    {"id": "C19-decode-all-stops-after-first", "prop": "C19", "edits": [
+        R(BENCODE, "         (recur (conj items item) data))))))", "         [(conj items item) data])))))")]},
+    {"id": "C19-decode-int-keeps-terminator", "prop": "C19", "edits": [
+        R(BENCODE, "    [(int (slice data 0 i))\n     (slice data (inc i))]))", "    [(int (slice data 0 i))\n     (slice data i)]))")]},
+    {"id": "C19-revert-python-dict-encode", "prop": "C19", "revert": ["SUBJECT:bencode encode of a Python dict"]},
+    {"id": "C19-nrepl-handles-requests-in-reverse", "prop": "C19", "edits": [
+        R(NREPL, "            (doseq [request requests]", "            (doseq [request (reverse requests)]")]},
     # ---- C18
     {"id": "C18-revert-order-independent-dispatch", "prop": "C18", "revert": ["57d3903"]},
     {"id": "C18-revert-F8-snapshot-under-lock", "prop": "C18", "revert": ["57d3903", "425145c"]},
